@@ -230,8 +230,12 @@ def run_setters(rng, obs):
         ck(R.close(R.wmean(m.positions, m.weights), t, 1e-9, 1e-9), 'range setter keeps the centre of mass')
         if len(set(sup)) >= 2:
             v = rng.choice([0.5, 3.0])
+            # conditioning: the deviations that get rescaled are differences of positions of size |t|, known to a few ulp(|t|); relative to the spread they had
+            # before the call that is the accuracy any implementation can reach (matters only for a tight support far from the origin)
+            sd0 = math.sqrt(max(R.wvar(m.positions, m.weights), 1e-300))
+            vtol = 1e-8 + 8e-15 * max(abs(t), max(abs(p_) for p_ in m.positions)) / sd0
             m.var = v
-            ck(R.close(R.wvar(m.positions, m.weights), v, 1e-8), 'var setter reaches the value', v=v, observed=R.wvar(m.positions, m.weights))
+            ck(R.close(R.wvar(m.positions, m.weights), v, vtol), 'var setter reaches the value', v=v, observed=R.wvar(m.positions, m.weights), tolerance=vtol)
             ck(R.close(R.wmean(m.positions, m.weights), t, 1e-9, 1e-9), 'var setter keeps the centre of mass')
             moved = True
     # product-level centre of mass
